@@ -5,6 +5,8 @@ history on the caller's arrays (repeated calls on the same objects, dicts built 
 insertion orders); there is no schedule or fault in this engine.
 """
 import copy
+import contextlib
+import io
 import random
 import traceback
 
@@ -28,7 +30,8 @@ RULES = {
 }
 ASSUMPTIONS = {
     'C20': ['reference probabilities computed in numpy longdouble log space; compared in log space where p > 1e-300 with tolerance 1e-12 + 8*eps_mach*|coef*eps/sens|*max|q|',
-            'permute_and_flip and generalized_exponential_mechanism define a different law and are not anchored by the property: excluded',
+            'permute_and_flip defines a different law and is not anchored by the property: excluded; generalized_exponential_mechanism is checked relative to its own scores '
+            '(generalized_em_scores of the tree under test): candidate i must be handed to the PRNG with probability proportional to base_i * exp(eps * score_i / 2)',
             'array qualities with a base measure are not generated (only the dict form documents the base measure as a measure)'],
 }
 TIERS = {
@@ -36,7 +39,8 @@ TIERS = {
             'thorough': dict(runs=None, budget_s=420, hashseeds=16, minimise_s=120)},
 }
 RUN_LIMIT_S = {'C20': 30}
-KINDS = ['mech-array', 'mech-dict', 'mech-dict-base', 'mst', 'adagrid', 'mwem', 'scale', 'noise', 'best']
+KINDS = ['mech-array', 'mech-dict', 'mech-dict-base', 'mst', 'adagrid', 'mwem', 'scale', 'noise', 'best', 'gem-dict']
+P_MWEM_SCALES = 0.01       # end-to-end mwem_pgm runs (bounded vs unbounded noise scales): ~50 ms each
 
 
 def gen_q(rnd, n):
@@ -58,6 +62,10 @@ def gen_q(rnd, n):
 
 def gen_case(rnd, prop, tier):
     kind = rnd.choice(KINDS)
+    if rnd.random() < P_MWEM_SCALES:
+        return dict(engine='G', kind='mwem-scales', q=[0.0], style='none', mag=0, eps=rnd.choice([0.1, 1.0, 3.0, 10.0]), sens=1.0, calls=1, shift=0.0, idx_seed=rnd.getrandbits(32),
+                    bounded=True, noise=rnd.choice(['laplace', 'gaussian', 'normal']), rounds=rnd.choice([1, 2, 3, 4]), delta=rnd.choice([1e-9, 1e-6]),
+                    alpha=rnd.choice([0.9, 0.5]), wl_seed=rnd.getrandbits(32), nrec=rnd.choice([5, 40]))
     n = rnd.choice([1, 2, 3, 3, 5, 8, 20])
     q, style, mag = gen_q(rnd, n)
     c = dict(engine='G', kind=kind, q=q, style=style, mag=mag, eps=rnd.choice([0.01, 0.1, 1.0, 1.0, 3.0, 10.0]),
@@ -77,6 +85,18 @@ def gen_case(rnd, prop, tier):
             if not any(b > 0 for b in c['base']):
                 c['base'][0] = 1.0
             c['base_order'] = rnd.sample(range(n), n)     # insertion order of the base-measure dict (may differ)
+    if kind == 'gem-dict':
+        c['keys'] = ['k%d' % i if rnd.random() < 0.5 else ('a%d' % i, 'b') for i in range(n)]
+        c['order'] = rnd.sample(range(n), n)
+        c['sens_each'] = [rnd.choice([1.0, 1.0, 2.0, 0.5, 6.0]) for _ in range(n)]
+        c['t'] = rnd.choice([None, None, 0.0, 1.5])
+        c['base'] = None
+        if rnd.random() < 0.6:
+            c['base'] = [rnd.choice([1.0, 1.0, 2.0, 0.25, 10.0, 12.0, 1e-3]) for _ in range(n)]      # unnormalised measures (e.g. marginal sizes)
+            if rnd.random() < 0.3:
+                tot = sum(c['base'])
+                c['base'] = [b / tot for b in c['base']]                                          # a normalised measure
+        c['base_order'] = rnd.sample(range(n), n)
     if kind == 'mwem':
         n = max(2, min(n, 5))
         c['n'] = n
@@ -236,6 +256,32 @@ def run_case(case, prop):
             elif kind == 'mwem':
                 run_mwem(case, rng, eps, viol, probes, tagbase)
                 steps += case['calls']
+            elif kind == 'mwem-scales':
+                steps += run_mwem_scales(case, viol, probes)
+            elif kind == 'gem-dict':
+                mech = get_mech(case['bounded'], rng)
+                M = core.load_mechanism('mechanism')
+                keys = [tuple(k) if isinstance(k, list) else k for k in case['keys']]
+                qd = {keys[i]: float(q[i]) for i in case['order']}
+                sd = {keys[i]: float(case['sens_each'][i]) for i in case['order']}
+                base = None if case['base'] is None else {keys[i]: case['base'][i] for i in case['base_order']}
+                for k in range(case['calls']):
+                    n0 = len(rng.events)
+                    ret = mech.generalized_exponential_mechanism(qd, sd, eps, t=case['t'], base_measure=base)
+                    steps += 1
+                    ev = one_choice(rng, n0, 'Mechanism.generalized_exponential_mechanism', viol, kind)
+                    if ev is None:
+                        break
+                    order = list(qd.keys())
+                    t = case['t'] if case['t'] is not None else 2 * np.log(len(order) / 0.5) / eps
+                    scores = np.asarray(M.generalized_em_scores(np.array([qd[kk] for kk in order]), np.array([sd[kk] for kk in order]), t), dtype=float)
+                    lb = None if base is None else np.log(np.array([base[kk] for kk in order], dtype=float))
+                    if not np.all(np.isfinite(scores)):
+                        probes['gem-scores-not-finite'] = 1
+                        break
+                    check_p(ev, scores, 0.5 * eps, tagbase + ' call#%d t=%s base=%s' % (k, case['t'], 'yes' if base else 'no'), viol, kind + (':base' if base else ''), lb)
+                    if ret != order[int(ev['idx'][0])]:
+                        viol.append(Violation('c20-return', kind + ':return', 'returned key %r but the PRNG chose candidate %r' % (ret, order[int(ev['idx'][0])])).as_dict())
             elif kind == 'scale':
                 b = mech.laplace_noise_scale(case['l'], eps)
                 want = case['l'] * (2.0 if case['bounded'] else 1.0) / eps
@@ -290,7 +336,7 @@ def run_case(case, prop):
         faults['rng-' + k] = v
     if case['calls'] > 1:
         faults['repeated-call-same-objects'] = 1
-    nontrivial = (len(q) >= 3 and len(set(case['q'])) > 1) if kind not in ('scale', 'noise', 'best') else ((kind == 'noise' and case['size'] > 1) or (kind == 'best' and len(case['reqs']) > 1))
+    nontrivial = (case['rounds'] >= 2) if kind == 'mwem-scales' else (len(q) >= 3 and len(set(case['q'])) > 1) if kind not in ('scale', 'noise', 'best') else ((kind == 'noise' and case['size'] > 1) or (kind == 'best' and len(case['reqs']) > 1))
     opts = [case.get('monotonic'), case.get('bounded') if kind in ('scale', 'mwem') else None, case.get('penalty'), case['eps'] == 'inf', case.get('dtype'),
             case.get('base_order') != case.get('order') if kind == 'mech-dict-base' else None]
     measure = [kind, opts, len(q) if len(q) < 8 else 'many', case['style'], case['mag'], case['calls'], case['shift'] != 0]
@@ -347,7 +393,55 @@ def run_mwem(case, rng, eps, viol, probes, tagbase):
             return
 
 
+def run_mwem_scales(case, viol, probes):
+    """'double the sensitivity under bounded adjacency', end to end: mwem_pgm run on the same table with bounded=False and bounded=True under
+    the same simulated outcomes; in every round the bounded run must draw its noise with exactly 2x (Laplace; L1 sensitivity) resp.
+    sqrt(2)x (Gaussian; L2 sensitivity) the scale of the unbounded run."""
+    import pandas as pd
+    from engines import d_twin
+    mbi = core.load_mbi()
+    mod = d_twin.load('mwem')
+    d_twin.capped_fi(mbi).CAP[0] = 5
+    r = random.Random(case['wl_seed'])
+    attrs = ['a', 'b', 'c']
+    sizes = [r.randint(2, 3) for _ in attrs]
+    recs = [[r.randrange(s_) for s_ in sizes] for _ in range(case['nrec'])]
+    data = mbi.Dataset(pd.DataFrame(np.array(recs, dtype=int), columns=attrs), mbi.Domain(attrs, sizes))
+    scales = {}
+    for bounded in (False, True):
+        rng = SimRNG(random.Random(case['idx_seed']), {'rates': {}})
+        try:
+            with rng.installed(), contextlib.redirect_stdout(io.StringIO()):
+                mod.mwem_pgm(data, case['eps'], case['delta'], rounds=case['rounds'], pgm_iters=5, noise=case['noise'], bounded=bounded, alpha=case['alpha'])
+        except Exception as e:
+            viol.append(Violation('c20-exception', 'mwem-scales:exception:%s' % type(e).__name__, 'mwem_pgm(bounded=%s, noise=%s, rounds=%d) raised %s: %s' % (bounded, case['noise'], case['rounds'], type(e).__name__, e)).as_dict())
+            return 0
+        scales[bounded] = [(e['kind'], float(np.max(np.asarray(e['scale'], dtype=float)))) for e in rng.events if e['kind'] in ('normal', 'laplace')]
+    u, b = scales[False], scales[True]
+    probes['mwem-bounded-vs-unbounded-scales'] = 1
+    if len(u) != len(b) or len(u) != case['rounds']:
+        viol.append(Violation('c20-seam', 'mwem-scales:seam', 'rounds=%d: %d noise draws unbounded, %d bounded' % (case['rounds'], len(u), len(b))).as_dict())
+        return len(u) + len(b)
+    for k, ((ku, su), (kb, sb)) in enumerate(zip(u, b)):
+        want = 2.0 if ku == 'laplace' else float(np.sqrt(2.0))
+        if ku != kb or not (abs(sb / su - want) <= 1e-12 * want):
+            viol.append(Violation('c20-scale', 'mwem-scales:bounded-factor', 'round %d of mwem_pgm(noise=%s, eps=%g, rounds=%d): %s scale %.12g under bounded adjacency, %.12g unbounded: factor %.12g instead of %.12g' % (
+                k + 1, case['noise'], case['eps'], case['rounds'], kb, sb, su, sb / su, want)).as_dict())
+            break
+    return len(u) + len(b)
+
+
 def shrink(case, prop):
+    if case['kind'] == 'mwem-scales':
+        if case['rounds'] > 1:
+            c = copy.deepcopy(case)
+            c['rounds'] -= 1
+            yield c
+        if case['nrec'] > 5:
+            c = copy.deepcopy(case)
+            c['nrec'] = 5
+            yield c
+        return
     if case['calls'] > 1:
         c = copy.deepcopy(case)
         c['calls'] = case['calls'] - 1
@@ -359,8 +453,8 @@ def shrink(case, prop):
                 break
             c = copy.deepcopy(case)
             del c['q'][k]
-            for key in ('keys', 'base'):
-                if key in c:
+            for key in ('keys', 'base', 'sens_each'):
+                if c.get(key) is not None:
                     del c[key][k]
             for key in ('order', 'base_order'):
                 if key in c:
